@@ -59,14 +59,15 @@ CHECKS = {
     ),
     "C05": dict(
         category="model_checking",
-        text=("Kernel-level bounded model checking (Kani/CBMC) of the real merge-expression interpreter ResolvedMergeFn::run, arm by arm: "
-              "old / new / constants; :no-merge raises the panic function exactly when the two values differ and never silently keeps "
-              "either; primitive merges are applied to the operands in the written order, nested arguments are evaluated first, a failing "
-              "primitive panics. All operand values and all results of nested calls are symbolic. (The function-valued arm is not decided: "
-              "its harness did not finish.)"),
-        design_ref="DESIGN.md §2 C05",
-        note=("Kernel level only: that the merge is APPLIED on every collision (table collision paths, rebuild collisions, parallel insert) "
-              "and the fold's order independence are outside; external calls and lookups are stubbed by recorders."),
+        text=("Kernel-level bounded model checking (Kani/CBMC) of the LEAF arms of the real merge-expression interpreter "
+              "ResolvedMergeFn::run, for all operand values: `old`, `new` and constants evaluate to what they name; a :no-merge function "
+              "(AssertEq) invokes the panic function exactly when the incoming value differs from the stored one and never silently keeps "
+              "the new one; an eq-sort output (UnionId) keeps one of the two ids independently of their order, the one the real union-find "
+              "makes the representative, and stages exactly one union per conflict."),
+        design_ref="DESIGN.md §2 C05, §8.2",
+        note=("Narrow on purpose: the Primitive and Function arms (lattice merges such as min/max/or, nested merges) are NOT decided -- every "
+              "harness in which run() recurses into its argument vector failed to finish under CBMC. That the merge is APPLIED on every "
+              "collision (table collision paths, rebuild collisions, parallel insert) and the fold's order independence are outside."),
         technique="bounded model checking of the real Rust code with Kani/CBMC (SAT), symbolic operands and stubbed environment",
     ),
     "C18": dict(
